@@ -368,12 +368,11 @@ func (self *linkedPairs) ToMap(con map[string]Node) {
 
 func (self *linkedPairs) copyPairs(to []Pair, from []Pair, l int) {
 	copy(to, from)
-	if self.index != nil {
-		for i := 0; i < l; i++ {
-			// NOTICE: in case of user not pass hash, just cal it
-			h := caching.StrHash(from[i].Key)
-			from[i].hash = h
-			self.index[h] = i
+	for i := 0; i < l; i++ {
+		// NOTICE: in case of user not pass hash, just cal it, in the stored pair:
+		// that is where BuildIndex and Get read it (the index is built by the caller)
+		if to[i].hash == 0 {
+			to[i].hash = caching.StrHash(to[i].Key)
 		}
 	}
 }
